@@ -96,5 +96,19 @@ CHECKS['C05'] = dict(
          'bounded stand-in.',
     note='trusted: the float-modulo model (fmod axioms), the shape of f"{x:.6f}", freshness of constructor results, '
          'pyvc/z3; NaN/infinity excluded by the property; Cython twin unverified.')
+CHECKS['C13'] = dict(
+    category='other',
+    technique='contract-based deductive verification: pyvc lemmas running the real FileInfo.write then read/verify '
+              'over a file-system model (z3/cvc5 strings), all placements and limits; bounded archive histories with '
+              'an independent directory decoder',
+    text='For directory and single-file archives, preload limit None / 0 / symbolic n, archive index None / 0 / 1, '
+         'arbitrary data and arbitrary previous entry state, the real FileInfo.write followed by the real read(), '
+         'verify() and size is executed symbolically over a model of the archive files and the in-memory footer: read() '
+         'returns exactly the data, the checksum verifies, size is its length and the preload fits the 16-bit field; a '
+         'read-only archive raises ValueError and changes nothing; _join_file_parts proved. (Quick tier: all directory '
+         'cases + one single-file case; thorough: all.) Directory tree encoding, reopen in r/w/a, deletion and the three '
+         'name forms are bounded stand-ins on real archives, cross-checked with an independent decoder.',
+    note='trusted: file model (append/seek/read), CRC32 uninterpreted, bytes as z3 strings, pyvc; write_dirfile / '
+         'load_dirfile and _get_file_parts are bounded-only; Cython iter_nullstr twin unverified.')
 _PENDING = 'not yet built in this session (planned, see DESIGN.md section 3); no check is registered so nothing is claimed'
 NOT_APPLICABLE = {f'C{i:02d}': _PENDING for i in range(1, 21) if f'C{i:02d}' not in CHECKS}
